@@ -199,7 +199,7 @@ def run_population(ck, rng, scratch, tpl, files, time_cov, probes, use_model=Tru
                     r = fs[targ] if p["filters"] is None else fs[targ, p["filters"]]
                 else:
                     r = fs.find_closest(targ, filters=p["filters"])
-                got = "none" if r is None else "ok " + str(ids[os.fspath(r)])
+                got = "none" if r is None else "ok " + str(G.file_id(ids, r))
             except Exception as e:  # noqa
                 got = "err " + G.err_class(e)
                 if os.environ.get("VERIF_DEBUG") and got.startswith("err other"):
